@@ -30,7 +30,7 @@ def gen_config(rng, tier, dims=(1, 2, 2, 2, 3, 3, 4), max_steps=None, box_kinds=
         "rebalancing": rng.random() < 0.6,
         "safety": rng.choice([0.0, 0.1, 0.1, 0.3]),
         "boundary": rng.random() < 0.6,
-        "margin": rng.choice([0.3, 0.5, 0.9, 0.9, 1.0]),
+        "margin": rng.choice([0.3, 0.5, 0.9, 0.9, 1.0, 0.0, None]),
         "profile": rng.choice(hooks.ERR_PROFILES),
         "steps": rng.randint(1, steps_cap),
         "errseed": rng.randrange(2 ** 31),
@@ -192,8 +192,10 @@ def check_structure(res, c, where):
               "%s: curContainer=%r at quiescent point" % (where, c.refinement.curContainer))
 
 
-def snapshot_selection(c):
-    snap = {"benefit_max": c.benefit_max, "margin": c.margin, "dims": []}
+def snapshot_selection(c, configured_margin="unset"):
+    # the margin the caller configured (None = documented default 0.9), not the value read back from the object
+    margin = c.margin if configured_margin == "unset" else (0.9 if configured_margin is None else configured_margin)
+    snap = {"benefit_max": c.benefit_max, "margin": margin, "dims": []}
     for k in range(c.dim):
         objs = c.refinement.get_refinement_container_for_dim(k).get_objects()
         snap["dims"].append([(float(o.start), float(o.end), o.benefit) for o in objs])
